@@ -47,6 +47,7 @@ type vodRep struct {
 	Timescale uint64
 	Segs      []vodSeg
 	trex      *mp4.TrexBox
+	Dflt      uint32 // RepData.DefaultSampleDuration as livesim2 derives it: trex, overwritten by the tfhd default of the last fragment of each segment read
 }
 
 func parseInit(path string) (*mp4.InitSegment, error) {
@@ -69,6 +70,7 @@ type parsedSeg struct {
 	Seq    uint32
 	Frames []frame
 	NFrag  int
+	TfhdDefault uint32 // default_sample_duration in the tfhd of the last fragment, 0 if absent
 }
 
 func parseMedia(data []byte, trex *mp4.TrexBox) (ps parsedSeg, err error) {
@@ -90,6 +92,10 @@ func parseMedia(data []byte, trex *mp4.TrexBox) (ps parsedSeg, err error) {
 				first = false
 			}
 			ps.NFrag++
+			ps.TfhdDefault = 0
+			if fr.Moof.Traf.Tfhd.HasDefaultSampleDuration() {
+				ps.TfhdDefault = fr.Moof.Traf.Tfhd.DefaultSampleDuration
+			}
 			fss, err := fr.GetFullSamples(trex)
 			if err != nil {
 				return ps, err
@@ -125,6 +131,9 @@ func loadVodRep(initPath, glob string) (*vodRep, error) {
 	rep := &vodRep{Timescale: uint64(init.Moov.Trak.Mdia.Mdhd.Timescale)}
 	if init.Moov.Mvex != nil {
 		rep.trex = init.Moov.Mvex.Trex
+		if rep.trex != nil {
+			rep.Dflt = rep.trex.DefaultSampleDuration
+		}
 	}
 	files, _ := filepath.Glob(glob)
 	for _, p := range files {
@@ -140,6 +149,9 @@ func loadVodRep(initPath, glob string) (*vodRep, error) {
 			return nil, fmt.Errorf("%s: %w", p, err)
 		}
 		rep.Segs = append(rep.Segs, vodSeg{Start: ps.Tfdt, End: ps.Tfdt + ps.dur(), Frames: ps.Frames})
+		if ps.TfhdDefault != 0 {
+			rep.Dflt = ps.TfhdDefault
+		}
 	}
 	if len(rep.Segs) == 0 {
 		return nil, fmt.Errorf("no segments match %s", glob)
@@ -280,49 +292,149 @@ func dropLastFrames(src, dst string, trex *mp4.TrexBox, n int) error {
 	return os.WriteFile(dst, buf.Bytes(), 0o644)
 }
 
-func buildScratch(root string) ([]assetDesc, error) {
+// genAssets: synthetic assets written with lib.WriteAsset (every sample payload distinct): fractional
+// frame boundaries (1001-based video against 44.1 kHz audio), AC-3 on its own segment grid, output
+// intervals strictly inside one VoD audio segment, audio loop longer / shorter than the video loop,
+// several fragments per VoD segment, sample durations in tfhd; plus random layouts drawn from the seed.
+func genAssets(rng *rand.Rand, nRand int) []lib.GenAsset {
+	mk := func(name string, v, a lib.GenRep) lib.GenAsset {
+		return lib.GenAsset{Name: name, Reps: []lib.GenRep{v, a}}
+	}
+	var out []lib.GenAsset
+	{
+		vd := lib.UniformDurs(4, 60060)
+		a := lib.AudioRep("A48", 1024, lib.AudioDursFollowing(vd, 30000, 44100, 1024, 0))
+		a.Timescale = 44100
+		out = append(out, mk("g2997a441", lib.VideoRep("V300", 30000, 1001, vd), a))
+	}
+	out = append(out, mk("gac3own", lib.VideoRep("V300", 12800, 512, lib.UniformDurs(3, 24576)), lib.AudioRep("A48", 1536, lib.FrameDurs(1536, 100, 80))))
+	out = append(out, mk("ginner", lib.VideoRep("V300", 90000, 3000, lib.UniformDurs(8, 90000)), lib.AudioRep("A48", 1024, lib.FrameDurs(1024, 375))))
+	out = append(out, mk("glong", lib.VideoRep("V300", 90000, 3000, lib.UniformDurs(3, 180000)),
+		lib.AudioRep("A48", 1024, lib.AudioDursFollowing(lib.UniformDurs(4, 180000), 90000, 48000, 1024, 2))))
+	{
+		vd := lib.AlternatingDurs(5, 180000, 90000)
+		a := lib.AudioRep("A48", 1024, lib.AudioDursFollowing(vd, 90000, 48000, 1024, -2))
+		a.Frags, a.CompactTrun = 2, true
+		out = append(out, mk("gshort", lib.VideoRep("V300", 90000, 3000, vd), a))
+	}
+	for i := 0; i < nRand; i++ {
+		rate := lib.GenRates[rng.Intn(len(lib.GenRates))]
+		ts, sd := rate[0], rate[1]
+		g := uint64(ts)
+		for b := uint64(sd) * 1000; b != 0; {
+			g, b = b, g%b
+		}
+		q := int(uint64(ts) / g) // the number of video frames must be a multiple of q (loop = whole ms)
+		n := 1 + rng.Intn(5)
+		frames := make([]int, n)
+		tot := 0
+		for k := range frames {
+			// between 0.3 s and 3 s per segment
+			lo, hi := int(uint64(ts)*3/10/uint64(sd))+1, int(uint64(ts)*3/uint64(sd))
+			frames[k] = lo + rng.Intn(hi-lo+1)
+			tot += frames[k]
+		}
+		frames[n-1] += (q - tot%q) % q
+		vd := lib.FrameDurs(sd, frames...)
+		var loop uint64
+		for _, d := range vd {
+			loop += d
+		}
+		F := uint32(1024)
+		ats := uint32(48000)
+		switch rng.Intn(4) {
+		case 0:
+			F = 1536
+		case 1:
+			ats = 44100
+		}
+		delta := rng.Intn(7) - 3
+		var ad []uint64
+		if rng.Intn(2) == 0 {
+			ad = lib.AudioDursFollowing(vd, ts, ats, F, delta)
+		} else { // own grid
+			total := int(lib.CeilFrame(loop, uint64(ts), uint64(F), uint64(ats))/uint64(F)) + delta
+			if total < 2 {
+				total = 2
+			}
+			m := 1 + rng.Intn(4)
+			if m > total {
+				m = total
+			}
+			fr := make([]int, m)
+			for k := range fr {
+				fr[k] = 1
+			}
+			for k := 0; k < total-m; k++ {
+				fr[rng.Intn(m)]++
+			}
+			ad = lib.FrameDurs(F, fr...)
+		}
+		a := lib.AudioRep("A48", F, ad)
+		a.Timescale = ats
+		a.Frags = 1 + rng.Intn(3)
+		a.CompactTrun = rng.Intn(3) == 0
+		out = append(out, mk(fmt.Sprintf("grand%d", i), lib.VideoRep("V300", ts, sd, vd), a))
+	}
+	return out
+}
+
+func buildScratch(root string, rng *rand.Rand, nRand int) ([]assetDesc, []string, error) {
 	var out []assetDesc
+	var notes []string
+	for _, ga := range genAssets(rng, nRand) {
+		if ok, why := ga.PredictAdmission(); !ok {
+			notes = append(notes, fmt.Sprintf("generated asset %s not used (%s)", ga.Name, why))
+			continue
+		}
+		if err := lib.WriteAsset(root, ga); err != nil {
+			notes = append(notes, fmt.Sprintf("generated asset %s could not be written: %v", ga.Name, err))
+			continue
+		}
+		out = append(out, assetDesc{Name: ga.Name, Scratch: true, URLPath: ga.Name, MPD: "Manifest.mpd", Dir: ga.Name,
+			AudioInit: "A48/init.mp4", AudioGlob: "A48/*.m4s", VideoInit: "V300/init.mp4", VideoGlob: "V300/*.m4s"})
+	}
 	for _, sp := range scratchSpecs() {
 		dir := filepath.Join(root, sp.Name)
 		if err := copyFile(sp.AudioInit, filepath.Join(dir, "A48/init.mp4")); err != nil {
-			return nil, err
+			return nil, notes, err
 		}
 		if err := copyFile(sp.VideoInit, filepath.Join(dir, "V300/init.mp4")); err != nil {
-			return nil, err
+			return nil, notes, err
 		}
 		for i, p := range sp.AudioSegs {
 			dst := filepath.Join(dir, fmt.Sprintf("A48/%d.m4s", i+1))
 			if sp.DropFrames > 0 && i == len(sp.AudioSegs)-1 {
 				init, err := parseInit(sp.AudioInit)
 				if err != nil {
-					return nil, err
+					return nil, notes, err
 				}
 				var trex *mp4.TrexBox
 				if init.Moov.Mvex != nil {
 					trex = init.Moov.Mvex.Trex
 				}
 				if err := dropLastFrames(p, dst, trex, sp.DropFrames); err != nil {
-					return nil, err
+					return nil, notes, err
 				}
 				continue
 			}
 			if err := copyFile(p, dst); err != nil {
-				return nil, err
+				return nil, notes, err
 			}
 		}
 		for i, p := range sp.VideoSegs {
 			if err := copyFile(p, filepath.Join(dir, fmt.Sprintf("V300/%d.m4s", i+1))); err != nil {
-				return nil, err
+				return nil, notes, err
 			}
 		}
 		mpd := strings.ReplaceAll(scratchMPD, "@CODEC@", sp.Codec)
 		if err := os.WriteFile(filepath.Join(dir, "Manifest.mpd"), []byte(mpd), 0o644); err != nil {
-			return nil, err
+			return nil, notes, err
 		}
 		out = append(out, assetDesc{Name: sp.Name, Scratch: true, URLPath: sp.Name, MPD: "Manifest.mpd", Dir: sp.Name,
 			AudioInit: "A48/init.mp4", AudioGlob: "A48/*.m4s", VideoInit: "V300/init.mp4", VideoGlob: "V300/*.m4s"})
 	}
-	return out, nil
+	return out, notes, nil
 }
 
 // assetState: everything the harness knows about one asset from the VoD files alone.
@@ -335,6 +447,8 @@ type assetState struct {
 	src    []frame // looped source: all VoD audio frames in order
 	canon  []int64 // first source index with the same content
 	byHash map[[32]byte]int64
+	codec  int    // codec family of the audio representation in the VoD MPD: 0 mp4a.40*, 1 ac-3*/ec-3*, 2 other
+	mpdF   uint64 // the frame duration the MPD code uses (RepData.sampleDur(), see Audio.rep_sample_dur)
 	N      int    // number of video segments
 	D      uint64 // video loop duration (reference timescale)
 	A, R   uint64 // audio / reference timescale
@@ -369,7 +483,41 @@ func loadAsset(d assetDesc, root string, ls *lib.Livesim) (*assetState, error) {
 	}
 	as.N = len(vi.Segs)
 	as.D = vi.Segs[as.N-1].End - vi.Segs[0].Start
+	as.codec = 2
+	if mp, err := m.ReadFromFile(filepath.Join(dir, d.MPD)); err == nil {
+		for _, p := range mp.Periods {
+			for _, a := range p.AdaptationSets {
+				if string(a.ContentType) != "audio" && !strings.HasPrefix(a.MimeType, "audio") {
+					continue
+				}
+				codecs := a.Codecs
+				if len(a.Representations) > 0 && a.Representations[0].Codecs != "" {
+					codecs = a.Representations[0].Codecs
+				}
+				switch {
+				case strings.HasPrefix(codecs, "mp4a.40"):
+					as.codec = 0
+				case strings.HasPrefix(codecs, "ac-3"), strings.HasPrefix(codecs, "ec-3"):
+					as.codec = 1
+				}
+			}
+		}
+	}
+	as.mpdF = repSampleDur(uint64(au.Dflt), as.codec, as.A)
 	return as, nil
+}
+
+// repSampleDur mirrors RepData.sampleDur() for the evidence and the replay input (the Coq model has its own copy).
+func repSampleDur(dflt uint64, codec int, ts uint64) uint64 {
+	switch {
+	case dflt != 0:
+		return dflt
+	case codec == 0 && ts == 48000:
+		return 1024
+	case codec == 1 && ts == 48000:
+		return 1536
+	}
+	return 0
 }
 
 // refSeg: start and end of reference (video) segment n according to the VoD table (C01's S(n), E(n)).
@@ -539,6 +687,22 @@ func (as *assetState) getTmpl(prefix string, nowMS int64) (*tmpl, error) {
 	return t, nil
 }
 
+// mpdFailure records an MPD request that was not answered with an MPD. A panic is tied to the model:
+// when RepData.sampleDur() is 0 the model's generateTimelineEntriesFromRef divides by zero as well.
+func (r *run) mpdFailure(as *assetState, url string, err error) {
+	c := r.c
+	in := map[string]any{"kind": "mpd", "asset": as.d.Name, "url": url, "mpd_sample_dur": as.mpdF, "frame_dur": as.F,
+		"default_sample_duration": as.audio.Dflt, "codec_family": as.codec, "audio_timescale": as.A}
+	resp := as.ls.GetRaw(url)
+	if resp.Panic != "" {
+		id := r.add(fmt.Sprintf("KTimeline 0 0 [(1, 0)] %s %d %d %s 2 []", u(as.R), as.audio.Dflt, as.codec, u(as.A)), in, false)
+		c.Fail(id, "mpd-panic:"+resp.Panic, "the MPD request panics: "+url, in)
+		c.Count("l1:" + as.d.Name + ":mpd-panic")
+		return
+	}
+	c.Fail("", "mpd", err.Error(), in)
+}
+
 type td struct{ T, D uint64 }
 
 func expandTL(l []*m.S) []td {
@@ -682,8 +846,12 @@ func (r *run) numberRun(as *assetState, prefix string, n0 int64, L int) {
 	nowMS := int64((eLast*1000+as.R-1)/as.R) + int64(r.rng.Intn(1500))
 	t, err := as.getTmpl(prefix, nowMS)
 	if err != nil {
-		c.Fail("", "mpd", err.Error(), map[string]any{"kind": "mpd", "asset": as.d.Name, "url": as.mpdURL(prefix, nowMS)})
-		return
+		r.mpdFailure(as, as.mpdURL(prefix, nowMS), err)
+		if !as.d.Scratch {
+			return
+		}
+		// the segments of a scratch asset are still requested (known template, default start number)
+		t = &tmpl{audio: "$RepresentationID$/$Number$.m4s", audioRep: "A48", video: "$RepresentationID$/$Number$.m4s", videoRep: "V300"}
 	}
 	var prev *audioObs
 	for n := n0; n < n0+int64(L); n++ {
@@ -739,7 +907,7 @@ func (r *run) timelineRun(as *assetState, prefix string, nowMS int64, nFetch int
 	url := as.mpdURL(prefix, nowMS)
 	t, err := as.getTmpl(prefix, nowMS)
 	if err != nil {
-		c.Fail("", "mpd", err.Error(), map[string]any{"kind": "mpd", "asset": as.d.Name, "url": url})
+		r.mpdFailure(as, url, err)
 		return
 	}
 	if len(t.videoTL) == 0 || len(t.audioTL) == 0 {
@@ -763,7 +931,7 @@ func (r *run) timelineRun(as *assetState, prefix string, nowMS int64, nFetch int
 		}
 		obs = append(obs, fmt.Sprintf("(%s, %d, %d)", lib.Zs(tt), s.D, s.R))
 	}
-	id := r.add(fmt.Sprintf("KTimeline 0 %s [%s] %s %s %s 0 [%s]", u(in.RefT), strings.Join(ents, "; "), u(t.videoTS), u(as.F), u(t.audioTS), strings.Join(obs, "; ")), in, false)
+	id := r.add(fmt.Sprintf("KTimeline 0 %s [%s] %s %d %d %s 0 [%s]", u(in.RefT), strings.Join(ents, "; "), u(t.videoTS), as.audio.Dflt, as.codec, u(t.audioTS), strings.Join(obs, "; ")), in, false)
 	c.Count("l1:" + as.d.Name + ":mpd-timeline")
 	v, a := expandTL(t.videoTL), expandTL(t.audioTL)
 	// oracle: the audio timeline lists exactly the frame-aligned images of the video entries
@@ -1350,6 +1518,18 @@ func (r *run) l2Arith() {
 		}
 		F32 := uint32(F)
 		rd := &app.RepData{ID: "A", ContentType: "audio", MediaTimescale: int(a), DefaultSampleDuration: F32, ConstantSampleDuration: &F32}
+		codec := 2
+		if r.rng.Intn(4) == 0 {
+			// no default sample duration: the frame duration is guessed from codec family and timescale
+			rd.DefaultSampleDuration = 0
+			codec = r.rng.Intn(3)
+			rd.Codecs = []string{"mp4a.40.2", []string{"ac-3", "ec-3"}[r.rng.Intn(2)], "opus"}[codec]
+			if r.rng.Intn(2) == 0 {
+				a = 48000
+				rd.MediaTimescale = 48000
+			}
+			F = repSampleDur(0, codec, a)
+		}
 		refT := uint64(r.rng.Int63n(1 << uint(1+r.rng.Intn(46))))
 		startNr := []int{0, 0, 0, 5, -1}[r.rng.Intn(5)]
 		var ent [][2]uint64
@@ -1370,7 +1550,7 @@ func (r *run) l2Arith() {
 			ents = append(ents, fmt.Sprintf("(%d, %d)", d, R))
 			in.Entries = append(in.Entries, [2]int64{int64(d), int64(R)})
 		}
-		in.URL = fmt.Sprintf("hook r=%d F=%d a=%d startNr=%d", rr, F, a, startNr)
+		in.URL = fmt.Sprintf("hook r=%d F=%d a=%d startNr=%d default_sample_duration=%d codecs=%q", rr, F, a, startNr, rd.DefaultSampleDuration, rd.Codecs)
 		cls := int64(0)
 		var out [][3]int64
 		func() {
@@ -1385,9 +1565,9 @@ func (r *run) l2Arith() {
 		for _, e := range out {
 			obs = append(obs, fmt.Sprintf("(%s, %d, %d)", lib.Zs(e[0]), e[1], e[2]))
 		}
-		id := r.add(fmt.Sprintf("KTimeline %s %s [%s] %s %s %s %d [%s]", lib.Zs(int64(startNr)), u(refT), strings.Join(ents, "; "), u(rr), u(F), u(a), cls, strings.Join(obs, "; ")), in, false)
+		id := r.add(fmt.Sprintf("KTimeline %s %s [%s] %s %d %d %s %d [%s]", lib.Zs(int64(startNr)), u(refT), strings.Join(ents, "; "), u(rr), rd.DefaultSampleDuration, codec, u(a), cls, strings.Join(obs, "; ")), in, false)
 		c.Count(fmt.Sprintf("l2:generateTimelineEntriesFromRef:class%d", cls))
-		if cls == 0 && startNr >= 0 {
+		if cls == 0 && startNr >= 0 && F > 0 {
 			// oracle: expanded entries are the frame-aligned images of the reference entries
 			var exp []td
 			t := refT
@@ -1419,19 +1599,21 @@ func (r *run) l2Arith() {
 // ---------------------------------------------------------------- main
 
 type env struct {
+	notes   []string
 	scratch string
 	states  []*assetState
 	byName  map[string]*assetState
 }
 
-func setup() (*env, error) {
+func setup(seed int64, nRand int) (*env, error) {
 	e := &env{byName: map[string]*assetState{}}
 	dir, err := os.MkdirTemp("", "verif-c03-")
 	if err != nil {
 		return nil, err
 	}
 	e.scratch = dir
-	sd, err := buildScratch(dir)
+	sd, notes, err := buildScratch(dir, rand.New(rand.NewSource(seed^0x5eed)), nRand)
+	e.notes = notes
 	if err != nil {
 		return e, err
 	}
@@ -1465,11 +1647,16 @@ func (e *env) cleanup() {
 }
 
 func runC03(c *lib.Ctx) error {
-	e, err := setup()
+	nRand := 3
+	if c.Thorough() {
+		nRand = 12
+	}
+	e, err := setup(c.Seed, nRand)
 	defer e.cleanup()
 	if err != nil {
 		return err
 	}
+	c.Res.Notes = append(c.Res.Notes, e.notes...)
 	r := &run{c: c, rng: rand.New(rand.NewSource(c.Seed)), distinct: map[string]bool{}}
 	if c.Replay != "" {
 		return replayC03(c, r, e)
